@@ -137,6 +137,16 @@ Pick(S) == {RandomElement(S)}
 CheckTargets(n) == LET st == DOMAIN store[n] IN
   IF st = {} THEN Tuples
   ELSE {<<t[1], t[2], r, u[4]>> : <<t, u, r>> \in {<<t, u, r>> \in st \X st \X Rels : r = t[3] \/ (t[1] = "n3" /\ r = "r2")}}
+\* list queries that select something: a stored relationship with any of the 2^4 subsets of its fields kept
+QueryTargets(n) == LET st == DOMAIN store[n] IN
+  IF st = {} THEN Queries
+  ELSE {<<IF m[1] THEN t[1] ELSE Nil, IF m[2] THEN t[2] ELSE Nil, IF m[3] THEN t[3] ELSE Nil, IF m[4] THEN t[4] ELSE NilS>> :
+          <<t, m>> \in st \X [1..4 -> BOOLEAN]}
+\* the fully specified query of a relationship that is stored more than once (all copies must come back)
+DupTargets(n) == LET d == {t \in DOMAIN store[n] : store[n][t] > 1} IN
+  IF d = {} THEN QueryTargets(n) ELSE {<<t[1], t[2], t[3], t[4]>> : t \in d}
+\* creating a relationship that is already stored makes a second copy
+CreateTargets(n, quarter) == IF quarter = 1 /\ DOMAIN store[n] # {} THEN DOMAIN store[n] ELSE Tuples
 Snapshot == [n \in Networks |-> BagList(store'[n])]
 NextGen ==
   /\ steps < NSteps /\ steps' = steps + 1 /\ run' = run
@@ -145,15 +155,15 @@ NextGen ==
            fault == Faults /\ flt = 1        \* one write in six meets a failing storage statement
            AllValid(ts) == \A j \in 1..Len(ts) : Valid(ts[j])
        IN
-       CASE k \in {1, 2, 3} -> \E t \in Pick(Tuples) : IF fault /\ Valid(t) THEN Failed("create", n, <<t>>) ELSE Create(n, t)
+       CASE k \in {1, 2, 3} -> \E qu \in Pick(1..3) : \E t \in Pick(CreateTargets(n, qu)) : IF fault /\ Valid(t) THEN Failed("create", n, <<t>>) ELSE Create(n, t)
          [] k \in {4, 5} -> \E i1 \in Pick(Tuples), i2 \in Pick(Tuples), d1 \in Pick(Tuples), d2 \in Pick(Tuples),
                               shape \in Pick(1..4) :
                               LET ins == CASE shape = 1 -> <<i1>> [] shape = 2 -> <<i1, i2>> [] shape = 3 -> <<i1, i1>> [] OTHER -> <<>>
                                   del == CASE shape = 1 -> <<d1>> [] shape = 2 -> <<>> [] shape = 3 -> <<d1, d2>> [] OTHER -> <<d1>>
                               IN IF fault /\ AllValid(ins) /\ AllValid(del) THEN Failed("transact", n, <<ins, del>>) ELSE Transact(n, ins, del)
-         [] k \in {6, 7} -> \E q \in Pick(Queries) : IF fault /\ QValid(q) THEN Failed("deleteq", n, <<q>>) ELSE DeleteQ(n, q)
+         [] k \in {6, 7} -> \E third \in Pick(1..3) : \E q \in Pick(IF third = 1 THEN QueryTargets(n) ELSE Queries) : IF fault /\ QValid(q) THEN Failed("deleteq", n, <<q>>) ELSE DeleteQ(n, q)
          [] k \in {8, 9} -> \E half \in Pick(1..2) : \E t \in Pick(IF half = 1 THEN Tuples ELSE CheckTargets(n)) : Check(n, t)
-         [] OTHER -> \E q \in Pick(Queries) : List(n, q)
+         [] OTHER -> \E third \in Pick(1..3) : \E q \in Pick(CASE third = 1 -> Queries [] third = 2 -> QueryTargets(n) [] OTHER -> DupTargets(n)) : List(n, q)
   /\ hist' = Append(hist, [op |-> last'.op, nid |-> last'.nid, args |-> last'.args, ok |-> last'.ok,
                            reply |-> last'.reply, after |-> Snapshot])
   /\ (steps' = NSteps => PrintT(ToJson([run |-> run, steps |-> hist'])))
